@@ -72,10 +72,8 @@ def barelink(rng, W):
     r = rng.random()
     if r < 0.45:
         return "[[%s %s]]" % (W().capitalize(), W()) if rng.random() < 0.5 else "[[T%s]]" % W()
-    if r < 0.75:
+    if r < 0.85:
         return "http://example.com/%s" % W()
-    if r < 0.9:
-        return "[http://example.com/%s]" % W()
     return "[[:T%s]]" % W()
 
 
